@@ -15,6 +15,12 @@ RULE = ("poly.ring cases for every pair of lengths 0..9 (the empty polynomial an
         "poly.calc for every length of p with 5 (Rat) / 2 (float kinds) lengths of q (all pairs in the thorough tier), "
         "derivative orders 0..len+1 (= degree+2, one beyond the quantifier); poly.access for every length 0..5 x every index 0..len+1; "
         "poly.ctor; a family of general (inexact) f64/Complex operands for the bitwise tie (order of floating-point operations; oracle within 256*2^-53 of the running error bound of each compared value); values sampled (seeded), shapes exhaustive; distinct = distinct executor line; "
+        "special STRUCTURE (driver/polylib.py: STRUCTS, RELATIONS, special_scalars): families related-* (q = p by value as a separate object, -p, c*p, x^k*p, p reversed, p', p with one "
+        "coefficient changed), struct-* (one operand -- the longer one; thorough: also the shorter one and both -- all-zero of length >= 2, one-term c*x^k, two or more vanishing leading "
+        "coefficients, zero interior, all ones, alternating signs, all equal, zeros of either sign (-0.0), every coefficient from the special menu 0 -0.0 1 -1 2 1/2 and for Complex "
+        "+-i +-ki 1+-i), evaluation point and scalar factor from the same menu, access-special-* (the same classes, index first / last / one past the end), ctor-special-* (a vanishing "
+        "leading argument included), hist-* (kind poly.hist, search-only: p[i]=x;trim -> p, degree, is_zero; trim;trim; trim;p[i]=x; coeffs().len()/push; coeffs()[i]=x; trim then + * - "
+        "eval derivative; p[i]=x then eval derivative *); quick tier: two lengths per relation and one or two shapes per class, rotating with the seed; thorough: all lengths 1..9 / 20 shapes; "
         "non-trivial = both operands of degree >= 1 (ring/calc), non-empty polynomial (access)")
 TRUSTED = ["Coq 8.16.1 kernel + vm_compute (primitive floats bit-exact)", "Rust executor /verif/harness (Rat = i128 rationals; k_poly.rs uses the public Polynomial API only)",
            "python driver: generators, textbook coefficient-list reference in Fraction / Gaussian rationals (driver/polylib.py), stream comparators",
@@ -34,7 +40,9 @@ MANIFEST = dict(
           "the derivative is linear and satisfies the product rule (as equalities of coefficient lists), derivative_n p (deg+1) is empty and higher "
           "orders panic; is_zero / trim / index specifications (where == decides equality); instantiated at Qc. The same Gallina "
           "functions are run against the implementation (Rat vs Qc exact; f64 and Complex<f64> bitwise) on every pair of lengths 0..9, "
-          "plus general inexact floats (bitwise: pins the order of the floating-point operations), "
+          "plus general inexact floats (bitwise: pins the order of the floating-point operations), plus operands with special structure (equal / negated / scaled / shifted operands, "
+          "all-zero, one-term, negative zeros, special values 0 1 -1 2 1/2 +-i as coefficients, evaluation points and scalar factors) and histories (index-assign, trim, coeffs() "
+          "followed by the views and operators; search only), "
           "and an independent textbook coefficient-list model in exact arithmetic searches for a failing input."),
     note=("eval/derivative of the empty polynomial panic (code and model alike) and are outside the 'acts as zero' claim; "
           "operand non-mutation and owned=borrowed forms are observed at run time, not proved."),
